@@ -484,7 +484,7 @@ class Sim:
         """{name: [(rc, status, hpc_id, file)]}; unreadable files are reported in self.rows_unknown."""
         rows = {}
         self.rows_unknown = []
-        files = glob.glob(os.path.join(self.out, "results", "results_batch_*.csv")) + [os.path.join(self.out, "processed_results.csv")]
+        files = glob.glob(os.path.join(glob.escape(self.out), "results", "results_batch_*.csv")) + [os.path.join(self.out, "processed_results.csv")]
         for f in files:
             try:
                 with open(f, newline="") as fh:
@@ -620,6 +620,7 @@ class Sim:
                     self.top_promoted.add(r.get("top"))
                     if pid == self.cancel_pid and self.cancel_ids_at_promotion is None:
                         self.cancel_ids_at_promotion = list(o["ids"])
+                        self.cancel_truth_at_promotion = sorted(self.active_batches())  # what the scheduler really holds for this submission
                     r["ids0"] = list(o["ids"])
                     r["rows0"] = set(self._rows_on_disk())
                     r["canceled0"] = o["canceled"]
@@ -1290,7 +1291,7 @@ class Sim:
         to explore, and <= 1000 steps of 0.05-s lock polls stay far below the 300-s lock timeout."""
         files = [os.path.join(self.out, "cluster_config.json.lock")]
         if not cluster_only:
-            files += [os.path.join(self.out, "processed_results.csv.lock")] + glob.glob(os.path.join(self.out, "results", "*.lock"))
+            files += [os.path.join(self.out, "processed_results.csv.lock")] + glob.glob(os.path.join(glob.escape(self.out), "results", "*.lock"))
         for lf in files:
             try:
                 with open(lf) as f:
@@ -1303,7 +1304,7 @@ class Sim:
 
     def lock_held_by_live_actor(self):
         pids = {a.pid for a in self.actors.values() if a.state == "waiting" and not (a.msg and a.msg["k"] == "sleep")}
-        for lf in [os.path.join(self.out, "cluster_config.json.lock"), os.path.join(self.out, "processed_results.csv.lock")] + glob.glob(os.path.join(self.out, "results", "*.lock")):
+        for lf in [os.path.join(self.out, "cluster_config.json.lock"), os.path.join(self.out, "processed_results.csv.lock")] + glob.glob(os.path.join(glob.escape(self.out), "results", "*.lock")):
             try:
                 with open(lf) as f:
                     first = f.readline().strip()
@@ -1574,7 +1575,8 @@ class Sim:
         live_user = sum(1 for t, p in self.tops.items() if t.startswith("user") and t not in self.top_rc)
         if live_user >= 2 or not self.obs:
             return
-        if self.scen.get("cancel") and self.cancel_started is None and self.sbatches and self.rng.random() < self.scen["cancel"]:
+        after_outage = self.scen.get("cancel_after_outage") and self.sq_budget <= 0 and not self.outage_freeze and any(f[0] == "squeue_fail" for f in self.faults_injected)
+        if self.scen.get("cancel") and self.cancel_started is None and self.sbatches and (after_outage or self.rng.random() < self.scen["cancel"]):
             self.cancel_started = set(self.active_batches())
             self.cancel_cmd_step = self.steps
             self.rows_at_cancel = self._rows_on_disk()
@@ -1679,8 +1681,13 @@ class Sim:
 
             argv += _sc.cli_options(self.scen)
         self.spawn_top("submit", argv, "login")
+        if self.scen.get("double_submit"):
+            self.settle()
+            self.spawn_top("submit2", argv, "login2")
         try:
             self.drive()
+            if self.scen.get("double_submit") and self.top_rc.get("submit") == 0 and self.top_rc.get("submit2") == 0:
+                self.viol("C10", "double-submit-both-accepted", "two submit-jobs commands started at once for one new output directory both exited 0")
             if not self.obs and self.top_rc.get("submit") not in (0, None) and not self.scen.get("expect_reject") and mode != "local" and not self.faults_injected:
                 try:
                     tail = open(os.path.join(self.root, "top_submit.log")).read()[-400:]
@@ -1772,7 +1779,7 @@ class Sim:
 
         raw = {}
         nlines = 0
-        for f in _g.glob(os.path.join(self.out, "*events.log")):
+        for f in _g.glob(os.path.join(_g.escape(self.out), "*events.log")):
             try:
                 for line in open(f):
                     if not line.strip():
@@ -1926,7 +1933,7 @@ class Sim:
         if not complete and not self.status_faults and self.scen.get("mode") != "local":
             dead = []
             live = {a.pid for a in self.actors.values()}
-            for lf in glob.glob(os.path.join(self.out, "results", "*.lock")) + glob.glob(os.path.join(self.out, "processed_results.csv.lock")):
+            for lf in glob.glob(os.path.join(glob.escape(self.out), "results", "*.lock")) + glob.glob(os.path.join(glob.escape(self.out), "processed_results.csv.lock")):
                 try:
                     first = open(lf).readline().strip()
                     if first and int(first) not in live:
@@ -1970,6 +1977,8 @@ class Sim:
                     self.viol("C12", "recorded-result-reported-missing", f"{name} has a recorded result ({rows[name][0][:2]} in {rows[name][0][3]}) but the completed submission reports it as missing")
         # jobs that really finished on a node that was not killed keep their result
         for name, rcs in fin.items():
+            if (self.scen.get("faults") or {}).get("unstartable_command"):
+                break  # the runner of that batch died of its own exception: its running jobs are lost like those of a killed node
             if name not in final and name not in self.killed_jobs:
                 node_killed = any(self.batches.get(int(l["node"]), {}).get("killed") for l in self.launches.get(name, []) if l["node"] and l["node"].isdigit())
                 if not node_killed:
@@ -1989,6 +1998,10 @@ class Sim:
             for i in ids:
                 if int(i) not in self.scancelled:
                     self.viol("C14", "active-batch-not-cancelled", f"batch {i} was active when cancel-jobs was promoted but received no scancel")
+            # the same against the scheduler's own books: a batch JADE has lost track of is still a batch that was active
+            for b in getattr(self, "cancel_truth_at_promotion", []):
+                if b not in self.scancelled and str(b) not in [str(x) for x in ids]:
+                    self.viol("C14", "active-batch-not-cancelled", f"batch {b} was queued or running in the scheduler when cancel-jobs was promoted (JADE's recorded ids: {ids}) but received no scancel")
         if complete and os.path.exists(os.path.join(self.out, "results.json")):
             try:
                 from jade.result import ResultsSummary
